@@ -34,6 +34,7 @@ class GenOpts(object):
         self.tail_focus = 0           # 1/n of schemas end with a (struct ending in greedy, struct ending in that struct) pair
         self.const_ref_bias = 6      # 1/n of sizes / discriminators refer to a constant when one fits
         self.intlike_bias = 5         # 1/n of integer members (sizers among them) are typed by a typedef (chain) of an integer
+        self.rich_size_exprs = False  # array extents written as expressions with shifts / divisions / unary minus (prophy text only)
         self.tiny_focus = 0           # 1/n of schemas get an array of dynamic structs that can be shorter than 4 bytes
         self.block_focus = 0          # 1/n of schemas get a struct of 3-5 blocks whose bound arrays find their sizers in any earlier block
         self.const_exprs = False      # constants / enumerators given as expressions over earlier names
@@ -118,7 +119,25 @@ class _Builder(object):
         if self.o.allow_const_refs and self.small_consts and self.draw(st.integers(0, self.o.const_ref_bias - 1)) == 0:
             name, n = self.draw(st.sampled_from(self.small_consts))
             expr = name
+        elif self.o.rich_size_exprs and self.draw(st.integers(0, 2)) == 0:
+            expr = self.rich_expr(n)
         return n, expr
+
+    def rich_expr(self, n):
+        """An expression denoting n that only reads right under the language's precedence and associativity:
+        a generated expression E over literals (all operators, see vlib.expr) corrected to n by a final + / - of a
+        literal, or a chain of a left and a right shift by different counts; minimal parentheses, with or without
+        blanks."""
+        from . import expr as ex
+        if self.draw(st.integers(0, 3)) == 0:
+            c, a = self.draw(st.integers(1, 4)), self.draw(st.integers(1, 6))
+            tree = ex.Bin('>>', ex.Bin('<<', ex.Num(n << c), ex.Num(a)), ex.Num(a + c))
+        else:
+            e = self.draw(ex.expressions({}, depth=2, allow_octal=False))
+            v = e.eval({})
+            tree = e if v == n else (ex.Bin('-', e, ex.Num(v - n)) if v > n else ex.Bin('+', e, ex.Num(n - v)))
+        assert tree.eval({}) == n
+        return ex.render(tree, 'prophy', self.draw(st.sampled_from([' ', ''])))
 
     # ---- declarations
     def name_expr(self, lo=0, hi=(1 << 32) - 1):
